@@ -70,6 +70,7 @@ type PView struct {
 	ICalls int `json:"icalls"` // interceptor invocations
 	IRecv  int `json:"irecv"`  // messages the stream interceptor's wrapping stream saw arrive
 	ISend  int `json:"isend"`  // messages it saw leave
+	ILate  int `json:"ilate"`  // calls on the interceptor's stream still in progress when its handler returned, or begun later
 }
 type ProxyEv struct {
 	Ev      string  `json:"ev"`
@@ -374,7 +375,11 @@ func runCall(cc *grpc.ClientConn, s PScript, callID string) PView {
 	return pv
 }
 
-type iseen struct{ calls, recv, send int }
+type iseen struct {
+	calls, recv, send int
+	busyAtReturn      int          // stream calls of the forwarder still in progress when it returned to the interceptor
+	ws                *watchStream // (its late counter is read when the call's views are merged)
+}
 
 type proxyWorld struct {
 	imu    sync.Mutex
@@ -425,7 +430,8 @@ func newProxyWorld() (*proxyWorld, error) {
 			ws := &watchStream{ServerStream: ss}
 			err := h(srv, ws)
 			w.imu.Lock()
-			is.recv, is.send = ws.recv, ws.send
+			is.busyAtReturn, is.ws = ws.handlerReturned(), ws
+			is.recv, is.send = int(ws.nrecv.Load()), int(ws.nsend.Load())
 			w.imu.Unlock()
 			return err
 		}))
@@ -466,6 +472,10 @@ func (w *proxyWorld) run(s PScript) ProxyEv {
 		w.imu.Lock()
 		if is := w.iseen[id]; is != nil {
 			pv.ICalls, pv.IRecv, pv.ISend = is.calls, is.recv, is.send
+			pv.ILate = is.busyAtReturn
+			if is.ws != nil {
+				pv.ILate += int(is.ws.late.Load())
+			}
 		}
 		w.imu.Unlock()
 		return pv
